@@ -142,10 +142,12 @@ func parseStep(param lokiapi.OptPrometheusDuration, start, end time.Time) (time.
 }
 
 func defaultStep(start, end time.Time) time.Duration {
-	seconds := math.Max(
-		math.Floor(end.Sub(start).Seconds()/250),
-		1,
-	)
+	// Whole seconds of the range divided by 250, in integers: float64 seconds
+	// round a range that is a nanosecond short of a multiple of 250s up.
+	seconds := int64(end.Sub(start)/time.Second) / 250
+	if seconds < 1 {
+		seconds = 1
+	}
 	return time.Duration(seconds) * time.Second
 }
 
